@@ -73,6 +73,25 @@ def cases(draw, tier):
     for _ in range(nsteps):
         if draw(st.integers(0, 3)) == 0:
             prog.append(draw(chain.gauge_instr(draw(st.sampled_from(["S", "S", "S", "O", "M"])))))
+        elif draw(st.integers(0, 9)) == 0:
+            # density-operator form of a state, an operator from either side, then a gauge move (labels of the result matter there)
+            a = draw(st.integers(0, 20))
+            prog.append({"op": "mpdm_from", "a": a})
+            prog.append({"op": "dm_apply", "o": draw(st.integers(0, 20)), "a": -1, "side": draw(st.integers(0, 1))})
+            g = draw(chain.gauge_instr("M"))
+            g["a"] = -1
+            prog.append(g)
+        elif draw(st.integers(0, 11)) == 0:
+            a = draw(st.integers(0, 20))
+            if draw(st.booleans()):
+                prog.append({"op": "coeff", "a": a, "on": "S", "val": draw(st.sampled_from(chain.SCALARS))})
+            prog.append({"op": "normalize", "a": a, "on": draw(st.sampled_from(["S", "S", "M"])), "kind": draw(st.integers(0, 2))})
+        elif draw(st.integers(0, 11)) == 0:
+            # a complex prefactor, then operations that have to carry it (conj, sums, overlaps)
+            a = draw(st.integers(0, 20))
+            prog.append({"op": "coeff", "a": a, "on": "S", "val": draw(st.sampled_from([[0.3, 0.4], [0.0, 1.0], [40.0, -9.0]]))})
+            prog.append(draw(st.sampled_from([{"op": "conj", "a": a, "on": "S"}, {"op": "add", "a": a, "b": draw(st.integers(0, 20)), "on": "S", "meth": 0},
+                                              {"op": "dot", "a": a, "b": draw(st.integers(0, 20)), "on": "S"}, {"op": "copy", "a": a, "on": "S"}])))
         else:
             ins = draw(arith_instr())
             if ins["op"] in ("add", "sub", "cadd", "dot", "distance") and draw(st.integers(0, 2)) > 0:
